@@ -1091,6 +1091,9 @@ pub fn gen_policy(seed: u64, idx: u64, max_leaves: usize) -> (String, P) {
         5 => {
             // repeated structure: a chain of or(and(pk, lock), ...)
             let n = 2 + g.rng.below(4) as usize;
+            if g.rng.chance(1, 2) {
+                g.strict_units = false; // every lock draws its own unit
+            }
             let mut acc: Option<P> = None;
             for _ in 0..n {
                 let lock = if g.rng.chance(1, 2) { g.older() } else { g.after() };
@@ -1146,6 +1149,64 @@ pub fn gen_policy(seed: u64, idx: u64, max_leaves: usize) -> (String, P) {
             let k = g.key();
             let v = if g.rng.chance(1, 2) { vec![k, o] } else { vec![o, k] };
             ("key-and-sigless-choice".into(), P::And(v))
+        }
+        11 | 12 | 13 => {
+            // both UNITS of one lock kind on different spending paths: after(<height>) vs
+            // after(<unix time>), older(<blocks>) vs older(<512 s units>).  The locks sit at
+            // corresponding positions of the branches, mostly with equal odds (the compiler then
+            // asks its cache for both with the same probabilities), sometimes nested.
+            let abs = g.rng.chance(1, 2);
+            let mut lock = |g: &mut PGen, time: bool| -> P {
+                g.strict_units = true;
+                if abs {
+                    g.abs_time = time;
+                    g.after()
+                } else {
+                    g.rel_time = time;
+                    g.older()
+                }
+            };
+            let first_time = g.rng.chance(1, 2);
+            let l1 = lock(&mut g, first_time);
+            let l2 = lock(&mut g, !first_time);
+            let n_br = 2 + g.rng.below(2) as usize;
+            let mut branches: Vec<P> = Vec::new();
+            for i in 0..n_br {
+                let l = match i {
+                    0 => l1.clone(),
+                    1 => l2.clone(),
+                    _ => {
+                        let t = g.rng.chance(1, 2);
+                        lock(&mut g, t)
+                    }
+                };
+                let k = g.key();
+                branches.push(match g.rng.below(4) {
+                    0 => P::And(vec![l, k]),
+                    1 => P::And(vec![k, P::And(vec![g.key(), l])]),
+                    _ => P::And(vec![k, l]),
+                });
+            }
+            let equal = g.rng.chance(2, 3);
+            let core = match g.rng.below(3) {
+                0 => P::Thresh(1, branches),
+                _ => {
+                    let mut it = branches.into_iter();
+                    let mut acc = it.next().unwrap();
+                    for b in it {
+                        let (wa, wb) = if equal { (1, 1) } else { (g.odds(), g.odds()) };
+                        acc = P::Or(vec![(wa, acc), (wb, b)]);
+                    }
+                    acc
+                }
+            };
+            let p = match g.rng.below(5) {
+                0 => P::And(vec![g.key(), core]),
+                1 => P::Or(vec![(1, g.key()), (1, core)]),
+                2 => P::Thresh(1, vec![g.key(), core]),
+                _ => core,
+            };
+            ("mixed-lock-units".into(), p)
         }
         _ => ("random".into(), g.tree(nl, true)),
     }
